@@ -377,6 +377,12 @@ func TestC08Transparency(t *testing.T) {
 			fault = &faultSpec{at: rapid.IntRange(0, total).Draw(rt, "faultAt"), short: rapid.Bool().Draw(rt, "short"), transient: rapid.Bool().Draw(rt, "transient")}
 		}
 		refServer := rapid.Bool().Draw(rt, "refServer")
+		// the independent responder's own padding (storrent's server never sends any PadD)
+		var padB, padD []byte
+		if refServer {
+			padB = gen.Fill(31, rapid.SampledFrom([]int{0, 0, 1, 100, 512}).Draw(rt, "padB"))
+			padD = gen.Fill(32, rapid.SampledFrom([]int{0, 1, 37, 511, 512}).Draw(rt, "padD"))
+		}
 		eofWithData := rapid.Bool().Draw(rt, "eofWithData")
 		seed := rapid.Uint64().Draw(rt, "seed")
 		plain := gen.Fill(seed, total)
@@ -385,6 +391,9 @@ func TestC08Transparency(t *testing.T) {
 		force := *crypto.DefaultOptions(true, true)
 		var fail string
 		labels := []string{fmt.Sprintf("ref-server:%v", refServer)}
+		if len(padD) > 0 {
+			labels = append(labels, "ref-server-sends-padD")
+		}
 		if eofWithData && !refServer {
 			labels = append(labels, "last-bytes-with-eof")
 		}
@@ -399,7 +408,7 @@ func TestC08Transparency(t *testing.T) {
 			go func() {
 				b.SetDeadline(time.Now().Add(time.Minute))
 				if refServer {
-					res, err := ref.MSEServer(b, [][]byte{h}, ref.MSEServerParams{X: big.NewInt(0x5555555), Select: func(uint32) uint32 { return 2 }})
+					res, err := ref.MSEServer(b, [][]byte{h}, ref.MSEServerParams{X: big.NewInt(0x5555555), PadB: padB, PadD: padD, Select: func(uint32) uint32 { return 2 }})
 					sch <- srv{nil, res, err}
 					return
 				}
